@@ -15,7 +15,8 @@ import (
 	"github.com/elastos/Elastos.ELA/dpos/manager"
 )
 
-var base = time.Unix(1600000000, 0)
+// the origin has a sub-second part, so that every view start time does (wire formats must keep it)
+var base = time.Unix(1600000000, 700000321)
 
 func i64(s string) int64 {
 	v, err := strconv.ParseInt(s, 10, 64)
@@ -93,6 +94,15 @@ func runCons(forkH, height uint32, running bool, tol int64, n int, me, off uint3
 			} else {
 				outs = append(outs, "f0")
 			}
+			continue
+		}
+		if x == "s" {
+			if err := vc.StatusRoundTrip(); err != nil {
+				panic("harness: status round trip: " + err.Error())
+			}
+			s := st{vc.Offset(), int64(vc.StartTime().Sub(base)), vc.OnDuty()}
+			res = append(res, s)
+			outs = append(outs, s.String())
 			continue
 		}
 		now := base.Add(time.Duration(i64(x[1:])))
@@ -341,6 +351,9 @@ func gen(g *hx.Gen) {
 			if r.Chance(15) {
 				steps = append(steps, "r")
 			}
+			if r.Chance(20) { // a recovering arbiter adopts the view from a ConsensusStatus message
+				steps = append(steps, "s")
+			}
 		}
 		if r.Chance(5) { // an observer that is not a current arbiter
 			me = uint32(nn) + uint32(r.Intn(3))
@@ -362,6 +375,27 @@ func oracle(t []string, out string) *hx.Violation {
 		if !running || len(steps) == 0 {
 			return nil
 		}
+		// sending the view through a ConsensusStatus message must not change it
+		{
+			f := strings.Fields(out)
+			for i, x := range steps {
+				if x != "s" || i >= len(f) {
+					continue
+				}
+				prev := fmt.Sprintf("%d,0,", off)
+				for j := i - 1; j >= 0; j-- {
+					if steps[j] != "r" {
+						prev = f[j]
+						break
+					}
+				}
+				cur := strings.Split(f[i], ",")
+				pv := strings.Split(prev, ",")
+				if cur[0] != pv[0] || cur[1] != pv[1] {
+					return &hx.Violation{Kind: "status-roundtrip-changed-view", Detail: fmt.Sprintf("view (offset,start) %s,%s became %s,%s after CollectConsensusStatus/Serialize/Deserialize/RecoverFromConsensusStatus", pv[0], pv[1], cur[0], cur[1])}
+				}
+			}
+		}
 		// the manager's pre-V1 extras must be off from ChangeViewV1Height on
 		if height >= forkH {
 			for _, o := range strings.Fields(out) {
@@ -375,7 +409,7 @@ func oracle(t []string, out string) *hx.Violation {
 		}
 		last := ""
 		for i := len(steps) - 1; i >= 0; i-- {
-			if steps[i] != "r" {
+			if steps[i] != "r" && steps[i] != "s" {
 				last = steps[i]
 				break
 			}
